@@ -18,7 +18,7 @@ Definition path := list step.
 Definition xpath := list path.
 
 Definition ntest_eqb (a b : ntest) : bool :=
-  match a, b with NTName x, NTName y => N.eqb x y | NTAny, NTAny => true | _, _ => false end.
+  match a, b with NTName x, NTName y => N.eqb x y | NTAny, NTAny => true | NTNs x, NTNs y => N.eqb x y | _, _ => false end.
 Definition step_eqb (a b : step) : bool :=
   match a, b with
   | SSelf, SSelf => true | SDesc, SDesc => true
@@ -148,9 +148,20 @@ Definition pf_end (s : pst) : pst * bool :=
   | (_, m) :: r => (mkPstA (cur s) (stk s) (nom s) 0 r, (m =? XP_MATCHED)%N || (m =? XP_MATCHED_D)%N)
   end.
 
+(** [fx]: the two small repairs of XPathMatcher::startElement proposed in fixes/C10-xpath-context-and-attr-wildcard.patch
+    are applied (findings F26 and F30): the context element is not tested against the child step that follows ".//",
+    and every attribute matching the name test of an attribute step is handed to matched() (the driver then also leaves
+    the namespace declarations out of the attribute list).  [fx = false] is the code as written. *)
+Variable fx : bool.
+Definition is_child (s : step) := match s with SChild _ => true | _ => false end.
 Definition p_start (p : path) (s : pst) (nm : N) (ats : list (N * V)) : pst * list V :=
   if fixed then pf_start p s nm ats
-  else let '(s', ov) := p_start_faithful p s nm ats in (s', match ov with Some v => [v] | None => [] end).
+  else if fx && (cur s =? 0) && (nom s =? 0) && (mat s =? 0)%N && is_desc (step_at p 1) && is_child (step_at p 2)
+       then (mkPst 1 (0 :: stk s) 0 0, [])
+  else let '(s', ov) := p_start_faithful p s nm ats in
+       (s', match ov with
+            | Some v => if fx then match last p SSelf with SAttr nt => attr_values nt ats | _ => [v] end else [v]
+            | None => [] end).
 Definition p_end (s : pst) : pst * bool := if fixed then pf_end s else p_end_faithful s.
 
 (** *** the selector matcher alone: which elements below (and including) the context element does a single
